@@ -328,7 +328,9 @@ def check(prog, rep, tier):
         if ins is None:
             continue
         # what is known about newest.count vs est when the key goes in
-        o = path_orderings([strip_epochs(c) for c in conds_at(p, ins)], count, est) & H
+        # (the limit may be read from the filter or from the newest sub-filter itself: C09.append makes every sub-filter carry the filter's est_elements)
+        cs_ = [strip_epochs(c) for c in conds_at(p, ins)]
+        o = path_orderings(cs_, count, est) & path_orderings(cs_, count, ("f", NEWEST, "_est_elements", 0)) & H
         names = [x[0] for x in ops]
         if names == ["append"]:
             if not o <= {EQ}:
